@@ -11,7 +11,13 @@ func init() {
 		Run: func(c *Ctx) {
 			c.Do("C07.a", "L11 allocation must be consumed", 4, func() { clAllocationsConsumed(c) })
 			c.Do("C07.b", "L3+L2 overwrite of an owning field", 3, func() { clStoreOwnership(c) })
-			c.Do("C07.c", "L2+L3 teardown order and free contexts", 15, func() { clFreeContexts(c); clFreeFeed(c); clStoreCursorsClosed(c); clWorkersSignalDone(c); clSkiplistCursorSession(c) })
+			c.Do("C07.c", "L2+L3 teardown order and free contexts", 15, func() {
+				clFreeContexts(c)
+				clFreeFeed(c)
+				clStoreCursorsClosed(c)
+				clWorkersSignalDone(c)
+				clSkiplistCursorSession(c)
+			})
 			c.Do("C07.d", "L1+L5 winner-only flush, exactly one winner", 10, func() { clDeleteNodeWinner(c); clSoftDeleteTable(c) })
 			c.Do("C07.f", "L1+L10 every terminated session reaches the destructor exactly once", 12, func() {
 				clTerminateOnce(c)
